@@ -53,7 +53,7 @@ CATALOGUE: list[tuple] = [
     ("pospred-no-restore-on-success", ["C03", "C05", "C08"], PREFIX, "        matched = self.expression.parse(state, [])\n        state.restore()\n        return matched", "        matched = self.expression.parse(state, [])\n        if matched:\n            state.ok()\n        else:\n            state.restore()\n        return matched", "fire", "PositivePredicate.parse"),
     ("negpred-leaks-pairs", ["C03", "C06", "C08"], PREFIX, "        state.neg_pred_depth += 1\n        matched = self.expression.parse(state, [])", "        state.neg_pred_depth += 1\n        matched = self.expression.parse(state, pairs)", "fire", "NegativePredicate.parse"),
     ("rule-pair-end-before-body", ["C06"], RULE, "                start=start,\n                end=state.pos,", "                start=start,\n                end=start,", "fire", "Rule.parse"),
-    ("rule-atomic-depth-not-raised", ["C04"], RULE, "            with state.atomic_checkpoint():\n                state.atomic_depth += 1\n                matched = self.expression.parse(state, children)", "            with state.atomic_checkpoint():\n                matched = self.expression.parse(state, children)", "fire", "Rule.parse"),
+    ("rule-atomic-depth-not-raised", ["C04"], RULE, "            with state.atomic_checkpoint():\n                state.atomic_depth += 1\n                state.hide_pairs = not self.modifier & COMPOUND\n                matched = self.expression.parse(state, children)", "            with state.atomic_checkpoint():\n                state.hide_pairs = not self.modifier & COMPOUND\n                matched = self.expression.parse(state, children)", "fire", "Rule.parse"),
     ("rule-frame-not-popped", ["C13"], RULE, "            matched = self.expression.parse(state, children)\n\n        state.rule_stack.pop()\n", "            matched = self.expression.parse(state, children)\n\n        if matched:\n            state.rule_stack.pop()\n", "fire", "Rule.parse"),
     ("pop-removes-on-failure", ["C05"], TERMINALS, "            value = state.user_stack.peek()\n            if state.input.startswith(value, state.pos):\n                state.user_stack.pop()\n                state.pos += len(value)\n                return True", "            value = state.user_stack.pop()\n            if state.input.startswith(value, state.pos):\n                state.pos += len(value)\n                return True", "silent-or-fire", "Pop.parse"),
     ("peekall-bottom-to-top", ["C05"], TERMINALS, "        for literal in reversed(state.user_stack):\n            # XXX: can `literal` be empty?", "        for literal in state.user_stack:\n            # XXX: can `literal` be empty?", "fire", "PeekAll.parse"),
@@ -126,7 +126,7 @@ CATALOGUE: list[tuple] = [
     ("S-stack-restore-slice-form", ["C09", "C05"], STACK, "            recovered = self.popped[new_size:]\n            del self.popped[new_size:]\n            self.items.extend(reversed(recovered))", "            recovered = self.popped[-rewind_count:]\n            del self.popped[-rewind_count:]\n            self.items.extend(recovered[::-1])", "silent", ""),
     ("peek-fail-outside-suppress", ["C07"], TERMINALS, "                state.pos += len(value)\n                return True\n\n            state.fail(value)\n        return False\n\n    def generate(self, gen: Builder, matched_var: str, pairs_var: str) -> None:\n        \"\"\"Emit Python code for a PEEK", "                state.pos += len(value)\n                return True\n\n        state.fail(value)\n        return False\n\n    def generate(self, gen: Builder, matched_var: str, pairs_var: str) -> None:\n        \"\"\"Emit Python code for a PEEK", "fire", "R5"),
     ("snapshotting-int-class-level-list", ["C15"], "src/pest/checkpoint_int.py", "    def __init__(self, value: int = 0) -> None:\n        self._value: int = value\n        self._checkpoints: list[int] = []", "    _checkpoints: list[int] = []\n\n    def __init__(self, value: int = 0) -> None:\n        self._value: int = value", "fire", "CLASS-MUTABLE"),
-    ("rule-mask-mixes-silent", ["C08"], RULE, "            if not rule or not rule.modifier & (NONATOMIC | COMPOUND):\n                # Atomic rule silences children", "            if not rule or not rule.modifier & (SILENT | NONATOMIC | COMPOUND):\n                # Atomic rule silences children", "fire", "MASK-AXES"),
+    ("rule-mask-mixes-silent", ["C08"], RULE, "        hidden = state.hide_pairs and not self.modifier & (COMPOUND | NONATOMIC)", "        hidden = state.hide_pairs and not self.modifier & (SILENT | COMPOUND | NONATOMIC)", "fire", "MASK-AXES"),
     ("pair-tokens-children-reversed", ["C06"], PAIRS, "        for child in self.children:\n            yield from child.tokens()\n        yield End(self.rule, self.end)", "        for child in reversed(self.children):\n            yield from child.tokens()\n        yield End(self.rule, self.end)", "fire", "Pair.tokens"),
     ("pairs-flatten-postorder", ["C06"], PAIRS, "            yield pair\n            for child in pair.children:\n                yield from _flatten(child)", "            for child in pair.children:\n                yield from _flatten(child)\n            yield pair", "fire", "Pairs.flatten"),
     ("pair-text-off-by-one", ["C06"], PAIRS, "        \"\"\"The substring pointed to by this token pair.\"\"\"\n        return self.input[self.start : self.end]", "        \"\"\"The substring pointed to by this token pair.\"\"\"\n        return self.input[self.start : self.end + 1]", "fire", "Pair.text"),
@@ -148,6 +148,13 @@ CATALOGUE: list[tuple] = [
     ("linecol-column-zero-based", ["C14"], PAIRS, "            self.pos - (cumulative_length - len(lines[target_line_index])) + 1\n        )\n        return line_number, column_number", "            self.pos - (cumulative_length - len(lines[target_line_index]))\n        )\n        return line_number, column_number", "fire", "line_col"),
     ("span-lines-off-by-one", ["C14"], PAIRS, "        return lines[start_line_number - 1 : end_line_number]", "        return lines[start_line_number - 1 : end_line_number - 1]", "fire", "Span.lines"),
     ("S-linecol-count-rfind-form", ["C14"], PAIRS, "        lines = self.text.splitlines(keepends=True)\n        cumulative_length = 0\n        target_line_index = -1\n\n        for i, line in enumerate(lines):\n            cumulative_length += len(line)\n            if self.pos < cumulative_length:\n                target_line_index = i\n                break\n\n        if target_line_index == -1:\n            # At the end of the text: on a new line if the text is empty or\n            # ends with a line break, else just after the last line.\n            if lines and lines[-1].splitlines()[0] == lines[-1]:\n                return len(lines), len(lines[-1]) + 1\n            return len(lines) + 1, 1\n\n        # 1-based\n        line_number = target_line_index + 1\n        column_number = (\n            self.pos - (cumulative_length - len(lines[target_line_index])) + 1\n        )\n        return line_number, column_number", "        before = self.text[: self.pos]\n        return before.count(\"\\n\") + 1, self.pos - before.rfind(\"\\n\")", "silent", ""),
+    # ---- pair visibility under @ / $ / ! (the semantics fix 70d5e83 introduced)
+    ("rule-hidden-still-produces-pair", ["C04", "C06"], RULE, "        if self.modifier & SILENT or hidden:\n            # Children without an enclosing Pair.", "        if self.modifier & SILENT:\n            # Children without an enclosing Pair.", "fire", "Rule.parse"),
+    ("rule-nonatomic-does-not-unhide", ["C04", "C06"], RULE, "                state.atomic_depth.zero()\n                state.hide_pairs = False\n", "                state.atomic_depth.zero()\n", "fire", "Rule.parse"),
+    ("rule-gen-compound-hides", ["C01", "C04"], RULE, "                    hide = not self.modifier & COMPOUND\n", "                    hide = True\n", "fire", "Rule.generate"),
+    ("rule-gen-hidden-test-dropped", ["C01", "C06"], RULE, "                if not always_visible:\n                    gen.writeln(f\"if {hidden_var}:\")", "                if False:\n                    gen.writeln(f\"if {hidden_var}:\")", "fire", "Rule.generate"),
+    ("atomic-checkpoint-keeps-visibility", ["C04"], STATE, "        yield self\n        self.hide_pairs = hide_pairs\n        self.atomic_depth.restore()", "        yield self\n        self.atomic_depth.restore()", "fire", "atomic_checkpoint"),
+    ("S-rule-visibility-spelled-out", ["C01", "C04", "C06", "C08"], RULE, "        hidden = state.hide_pairs and not self.modifier & (COMPOUND | NONATOMIC)\n", "        hidden = False\n        if state.hide_pairs:\n            hidden = not (self.modifier & COMPOUND or self.modifier & NONATOMIC)\n", "silent", ""),
     # ---- the defect repaired by 1103b37, put back
     ("repeat-gen-trivia-outside-checkpoint", ["C01"], POSTFIX, '            gen.writeln("state.checkpoint()")\n            gen.writeln(f"if not {first}:")\n            with gen.block():\n                # Trivia before an iteration is given back, together with\n                # anything it did to the stack, if the iteration fails.\n                gen.writeln(f"parse_trivia(state, {tmp_pairs})")\n            # Parse one item\n            self.expression.generate(gen, matched_var, tmp_pairs)\n\n            gen.writeln(f"if {matched_var}:")\n            with gen.block():\n                gen.writeln("state.ok()")\n                # Commit the item immediately\n                gen.writeln(f"{pairs_var}.extend({tmp_pairs})")\n                gen.writeln(f"{tmp_pairs}.clear()")\n                gen.writeln(f"{first} = False")\n            gen.writeln("else:")\n            with gen.block():\n                gen.writeln("state.restore()")\n', '            gen.writeln("state.checkpoint()")\n            # Parse one item\n            self.expression.generate(gen, matched_var, tmp_pairs)\n\n            gen.writeln(f"if {matched_var}:")\n            with gen.block():\n                gen.writeln("state.ok()")\n                # Commit the item immediately\n                gen.writeln(f"{pairs_var}.extend({tmp_pairs})")\n                gen.writeln(f"{tmp_pairs}.clear()")\n                gen.writeln(f"{first} = state.pos")\n                gen.writeln(f"parse_trivia(state, {tmp_pairs})")\n            gen.writeln("else:")\n            with gen.block():\n                gen.writeln("state.restore()")\n                gen.writeln(f"if {first} is not True:")\n                with gen.block():\n                    gen.writeln(f"state.pos = {first}")\n', "fire", "Repeat"),
     # ---- C01 DIFF (both siblings evaluated on scripted children)
